@@ -23,7 +23,9 @@ PROPS = {
                  rule="implementation-driven random gate-level histories on one Broadcast guarding a harness-owned integer "
                       "(HoldLock / TryHoldLock / HoldLockMaybeAsync callbacks running small programs of broadcast, getWaitCh, g++ and g:=v, "
                       "callbacks that stay inside the lock, callers that block on the channel they took, Wait with 4 predicate kinds incl. "
-                      "errors, nil arguments, pre-cancelled contexts, cancellations while parked / blocked / at the exit gate) + corpus; "
+                      "errors, nil arguments, pre-cancelled contexts, cancellations while parked / blocked / at the exit gate; directed: a Wait call parked "
+                      "at its HoldLock gate (also queueing behind a callback that holds the lock, also after having been woken) is cancelled and then "
+                      "runs its section with the predicate returning error / true / false, new calls often use the current value as parameter) + corpus; "
                       "distinct = distinct event sequence; non-trivial = >= 8 events and some actor observed blocked"),
         ],
         trusted=SCHED_TRUSTED,
@@ -36,7 +38,9 @@ PROPS = {
             text="Coq theorems over ALL event lists of a gate-level interleaving model of broadcast.Broadcast (any number of HoldLock / TryHoldLock / "
                  "HoldLockMaybeAsync callers running arbitrary programs of broadcast / getWaitCh / writes, any number of Wait calls, every interleaving of "
                  "critical sections, wake-ups, cancellations): a handed-out channel is closed iff a broadcast happened since (first later broadcast closes, "
-                 "open until the next, closing monotone); Wait returns nil only on a true predicate, passes the predicate's error through, returns Canceled "
+                 "open until the next, closing monotone); Wait returns nil only on a true predicate, passes the predicate's error through (both directions: returned "
+             "10+e only after an evaluation that gave e, and an evaluation that gives e is returned in that very step whether or not the context has been "
+             "cancelled meanwhile - monitor clause 8 reads this on the observed trace), returns Canceled "
                  "only if cancelled; no-lost-wake-up invariant (closed c or g = sampled value or an undisciplined write happened) and its quiescence corollary; "
                  "and the theorem that the property monitors report nothing on the model's own observations for every event list (c03_model_satisfies_monitors). "
                  "Model tied to the code by scheduled differential correspondence (synctest, one critical section at a time, extracted model must produce the same "
